@@ -146,6 +146,29 @@ def check_float_case(fb, rec, rnd, rep, stats, N):
 HELD = []
 
 
+def check_int_grids(fb, rep, stats):
+    """a grid of integer dtype (np.arange, also descending) with float samples: same numbers as the same grid in floats, float result"""
+    for N in (7, 11, 20):
+        for direction in (1, -1):
+            xi = np.arange(1, N + 1)[::direction].copy()
+            fx = np.sqrt(xi + 0.5) * 0.75
+            for n in (1, 2, 3):
+                for m in (1, 2):
+                    if 2 * (n // 2 + m) + 2 > N:
+                        continue
+                    key = 'int-grid/N=%d/dir=%d/n=%d/m=%d' % (N, direction, n, m)
+                    try:
+                        a = fb.fd_derivative(fx, xi, n, m)
+                        b = fb.fd_derivative(fx, xi.astype(float), n, m)
+                    except Exception as ex:
+                        rep.violation('raises:' + key, dict(case=key), 'fd_derivative raised %r on an integer-dtype grid' % (ex,))
+                        continue
+                    stats['float_calls'] += 2
+                    if not (np.asarray(a).dtype.kind == 'f' and np.array_equal(np.asarray(a), np.asarray(b), equal_nan=True)):
+                        rep.violation('int-grid', dict(case=key, got=np.asarray(a)[:4].tolist(), float_grid=np.asarray(b)[:4].tolist(), dtype=str(np.asarray(a).dtype)),
+                                      '%s: on the integer-dtype grid the result is %s (dtype %s), on the same grid in floats %s' % (key, np.asarray(a)[:4].tolist(), np.asarray(a).dtype, np.asarray(b)[:4].tolist()))
+
+
 def run(tier, rep):
     seed = vlib.seed_from_env()
     from numdifftools import fornberg as fb
@@ -157,6 +180,7 @@ def run(tier, rep):
     stats = dict(calls=0, float_calls=0, skipped_overflow=0, max_ratio=0.0, max_ratio_float=0.0)
     for rec in res.records:
         check_tlc_case(fb, rec, rep, stats)
+    check_int_grids(fb, rep, stats)
     rnd = random.Random(seed)
     pool = [r for r in res.records if r['pat'] == 1 and r['dir'] == 1]
     rnd.shuffle(pool)
